@@ -69,6 +69,7 @@ func verifySumcheck(api frontend.API, claims sumcheckLazyClaims, proof sumcheckP
 		if combinationCoeff, err = next(transcript, []frontend.Variable{}, &remainingChallengeNames); err != nil {
 			return err
 		}
+		verifTrace("comb", -1, combinationCoeff)
 	}
 
 	r := make([]frontend.Variable, claims.varsNum())
@@ -101,6 +102,7 @@ func verifySumcheck(api frontend.API, claims sumcheckLazyClaims, proof sumcheckP
 		gJR = polynomial.InterpolateLDE(api, r[j], gJ[:(claims.degree(j)+1)])
 	}
 
+	verifTrace("r", -1, r...)
 	return claims.verifyFinalEval(api, r, combinationCoeff, gJR, proof.FinalEvalProof)
 
 }
